@@ -63,6 +63,23 @@ def generate(ctx, nprog, ndst, depth, seed, blobs):
     return progs[:nprog]
 
 
+def generate_pairs(ctx, npairs, ndst, seed, blobs):
+    """Directed PAIR programs (MigrateGen PairMode): neighbouring objects in migration order, every attribute set on
+    one and default on the next - pattern A inside a bucket, pattern B across the bucket boundary; npairs of each."""
+    subst = {"Ops": pithos.tla_set(OPS), "GenDepth": "6", "NDst": str(ndst), "Blobs": pithos.tla_set(blobs),
+             "PairMode": "TRUE", "Deviations": ctx.deviations(props=pithos.PROPS)}
+    r = ctx.tlc("MigrateGen", "Migrate.Gen.cfg", workers=1, simulate="num=%d" % (4 * npairs + 8), depth=7, seed=seed,
+                timeout=900, count_mc=False, subst=inherit("Migrate.Gen.cfg", "Pithos.MCver.cfg", subst))
+    progs = [p for p in r.printed if isinstance(p, dict) and "calls" in p]
+    ctx.transitions += r.generated
+    a = [p for p in progs if p["calls"][2]["meta"] != "none"][:npairs]
+    b = [p for p in progs if p["calls"][2]["meta"] == "none"][:npairs]
+    if len(a) < npairs or len(b) < npairs:
+        raise vlib.Infra("pair program generation produced %d/%d programs of pattern A/B, %d each wanted (%s)" %
+                         (len(a), len(b), npairs, r.outcome))
+    return a + b
+
+
 def split_programs(lines):
     out, cur = [], None
     for ln in lines:
@@ -172,6 +189,8 @@ def coverage(ctx, records, dropped):
         "with_delete_marker": sum(1 for r in ok if r["facts"]["marker"]),
         "with_redirect": sum(1 for r in ok if r["facts"]["redir"]),
         "two_source_buckets": sum(1 for r in records if r["facts"]["twoorders"]),
+        "neighbour_pairs_in_bucket": sorted(set(a for r in ok for a in r["facts"]["pairs_in"])),
+        "neighbour_pairs_across_buckets": sorted(set(a for r in ok for a in r["facts"]["pairs_cross"])),
         "sys_classes": sorted(set(s for r in ok for s in r["facts"]["sys"])),
         "tag_classes": sorted(set(s for r in ok for s in r["facts"]["tags"])),
         "ctype_classes": sorted(set(s for r in ok for s in r["facts"]["ctypes"])),
@@ -187,6 +206,11 @@ def coverage(ctx, records, dropped):
         need.append("with_6MiB_blob_uploader_multipart_path")
     missing = [k for k in need if cov[k] == 0]
     missing += [k for k, v in cov["dst_kinds"].items() if v == 0]
+    # order-dependent leaks: every attribute set on an object and default on the one migrated right after it
+    for what in ("neighbour_pairs_in_bucket", "neighbour_pairs_across_buckets"):
+        lack = {"class", "ctype", "sys", "user", "redir", "tags"} - set(cov[what])
+        if lack:
+            missing.append("%s lacks %s" % (what, sorted(lack)))
     # every metadata / tag / content-type class must have been migrated at least once
     for cls, want in (("sys_classes", {"none", "s1", "s2", "s3", "s4", "s5"}), ("tag_classes", {"none", "g1", "g2"}),
                       ("ctype_classes", {"none", "t1", "t2"})):
@@ -222,6 +246,7 @@ def run(ctx):
     while todo:
         i, (label, src, dst, nprog, blobs, big), seed = todo.pop(0)
         gp = generate(ctx, nprog, ndst, depth if not big else 10, seed, blobs)
+        gp += generate_pairs(ctx, ctx.pick(2, 4), ndst, seed, blobs)
         progs = []
         for p in gp:
             pid += 1
@@ -300,6 +325,7 @@ def run(ctx):
     ]
     return ("TLC -simulate source programs of %d calls over PithosMC (metadata x tags x class x content type classes, append, "
             "multipart, copy, versioning) x %d destination programs each (empty / non-empty same bucket / empty same bucket / "
-            "other bucket%s), executed on real stack pairs %s; non-trivial = at least one object migrated and compared, or a "
+            "other bucket%s), plus directed PAIR programs (every attribute set on one object and default on the object migrated "
+            "right after it, inside a bucket and across the bucket boundary), executed on real stack pairs %s; non-trivial = at least one object migrated and compared, or a "
             "non-empty destination refused" % (depth, ndst, " / mixed" if ndst > 4 else "",
                                               ", ".join("%s->%s" % (s, d) for _, s, d, _, _, _ in plan)))
